@@ -377,7 +377,75 @@ func sizesFor(c *core.Child, f family) []int {
 	return out
 }
 
+// appendedSchemas: schemas extended after construction (AppendType) must not
+// pay per request for the number of object types an abstract type has: the
+// possible-type tables are built when the schema changes (or at the latest
+// once), never again for every request, and validation / planning counts do
+// not depend on the number of implementers.
+func appendedSchemas(c *core.Child) {
+	text := "{ start { id ... on T0 { id } ... on T1 { a: id } next { ... on T1 { id } ...F } nexts { ... on T0 { id } } } } fragment F on T0 { b: id }"
+	var base [2]uint64
+	for mi, m := range []int{3, 24, 96} {
+		id := fmt.Sprintf("appended-schema/m%d", m)
+		if !c.Begin(id) {
+			continue
+		}
+		// the types of a fan schema, but only T0 supplied up front; the others appended one by one
+		other := buildFan(m)
+		cfg := graphql.SchemaConfig{Query: other.schema.QueryType(), Types: []graphql.Type{other.objs[0]}}
+		schema, err := graphql.NewSchema(cfg)
+		if err != nil {
+			c.Violation("harness:schema-build", err.Error(), nil)
+			continue
+		}
+		for _, o := range other.objs[1:] {
+			if err := schema.AppendType(o); err != nil {
+				c.Violation("harness:append-type", err.Error(), nil)
+			}
+		}
+		other.resolveTo = func(level int) int { return level % 2 }
+		doc, perr := harness.Parse(text)
+		if perr != nil {
+			c.Violation("harness:family-noparse", perr.Error(), text)
+			continue
+		}
+		// warm-up: whatever is built lazily may be built now
+		graphql.Do(graphql.Params{Schema: schema, RequestString: text})
+		b0 := verifhook.Snapshot()
+		var steps [2]uint64
+		for rep := 0; rep < 3; rep++ {
+			t0 := verifhook.Total()
+			valid := graphql.ValidateDocument(&schema, doc, nil).IsValid
+			t1 := verifhook.Total()
+			plan, err := graphql.PlanQuery(&schema, doc, "")
+			t2 := verifhook.Total()
+			if !valid || err != nil {
+				c.Violation("harness:family-validity", fmt.Sprintf("appended-schema document: valid=%v plan error=%v", valid, err), text)
+				break
+			}
+			graphql.ExecutePlan(plan, graphql.ExecuteParams{Schema: schema})
+			graphql.Do(graphql.Params{Schema: schema, RequestString: text})
+			steps = [2]uint64{t1 - t0, t2 - t1}
+			c.Eval(4)
+		}
+		b1 := verifhook.Snapshot()
+		c.Feature("appended-schema")
+		c.Nontrivial(core.HashString(id))
+		if d := b1[verifhook.SchemaPossibleTypeBuild] - b0[verifhook.SchemaPossibleTypeBuild]; d != 0 {
+			c.Violation("implementers:possible-type-table-rebuilt-per-request", fmt.Sprintf("a schema extended with AppendType (%d implementers) rebuilt a possible-type table %d times while serving 3 warm requests: the table does not survive the request, so every request pays for the number of object types", m, d), text)
+		}
+		if mi == 0 {
+			base = steps
+		} else if steps != base {
+			c.Violation("implementers:appended-schema", fmt.Sprintf("validation / planning steps %v with %d implementers, %v with 3", steps, m, base), text)
+		}
+	}
+}
+
 func run(c *core.Child) {
+	if c.Batch == 0 {
+		appendedSchemas(c)
+	}
 	for fi, f := range families {
 		if fi%c.NBatches != c.Batch {
 			continue
